@@ -102,8 +102,10 @@ def _prune(prefix, keep):
     except FileNotFoundError:
         return
     ds.sort(key=lambda d: os.path.getmtime(d), reverse=True)
+    # never one that was used in the last hour: checks against several trees may be running at the same time
     for d in ds[keep:]:
-        shutil.rmtree(d, ignore_errors=True)
+        if time.time() - os.path.getmtime(d) > 3600:
+            shutil.rmtree(d, ignore_errors=True)
 
 
 def build_lib(cfg):
